@@ -393,6 +393,16 @@ def columnIter (m : Matrix α) (column : Nat) : Outcome (List α) :=
 def diagonalIter (m : Matrix α) : Outcome (List α) :=
   collectUnchecked m ((List.range (min m.rows m.columns)).map fun i => (i, i))
 
+/-! ### equality and clone (mod.rs: `impl PartialEq for Matrix`, `impl Clone for Matrix`) -/
+
+/-- `PartialEq::eq`: the row counts, the column counts, then
+    `self.data.iter().zip(other.data.iter()).all(|(x, y)| x == y)` (the `zip` stops at the shorter
+    storage: only the invariant makes this an honest comparison) -/
+def eqP [BEq α] (a b : Matrix α) : Bool :=
+  if a.rows != b.rows then false
+  else if a.columns != b.columns then false
+  else (a.data.zip b.data).all fun p => p.1 == p.2
+
 /-! ### operations as data, histories -/
 
 /-- The operation alphabet of C11. -/
